@@ -1,6 +1,9 @@
 use std::iter::once;
 
-use crate::bound::{Bounds, WhereClauseBuilder};
+use crate::{
+    bound::{Bounds, WhereClauseBuilder},
+    syn_utils::expand_self,
+};
 use proc_macro2::{Span, TokenStream, TokenTree};
 use quote::{quote, quote_spanned, ToTokens};
 use structmeta::{Flag, ToTokens};
@@ -120,12 +123,18 @@ fn build_compare_op(
     hattrs: &HelperAttributes,
 ) -> Result<TokenStream> {
     let kind = DeriveItemKind::CompareOp(op);
-    let (impl_g, type_g, _) = source.generics().split_for_impl();
+    let (_, type_g, _) = source.generics().split_for_impl();
     let this_ty_ident = source.ident();
     let this_ty: Type = parse_quote!(#this_ty_ident #type_g);
     let trait_ = kind.to_path();
+    // `Eq` re-uses the generics and the where-clause for a free function, where `Self` is not available
+    let generics = match op {
+        CompareOp::Eq => expand_self(source.generics(), &this_ty),
+        _ => source.generics().clone(),
+    };
+    let (impl_g, _, _) = generics.split_for_impl();
 
-    let mut wcb = WhereClauseBuilder::new(source.generics());
+    let mut wcb = WhereClauseBuilder::new(&generics);
     let use_bounds = e.push_bounds_to_with(hattrs, kind, &mut wcb);
     let body = match op {
         CompareOp::PartialEq => build_partial_eq_body(source, use_bounds, &mut wcb)?,
